@@ -21,12 +21,20 @@ def ref_oracle(ctx, sp, o, what='optimum of the independent formulation'):
     ctx.cov['impl_oracle_evaluations'] += 1
     ctx.count('ref:%s/eao:%s' % (r['status'], o.get('solve')))
     if o.get('solve') == 'optimal' and r['status'] == 'optimal':
-        if abs(o['value'] - r['value']) > 1e-6 * (1 + abs(r['value'])):
-            ctx.violation('impl-violation', {'spec': sp, 'observed': {'EAO optimum': o['value'], 'reference optimum': r['value']}, 'expected': what},
-                          trigger={'what': 'optimum differs from reference'})
-        elif r.get('eao_dispatch_in_reference') != 'optimal':
+        # sound against an imperfect reference solver: every comparison uses values of points that are feasible in the
+        # reference model.  v_fix = best reference value with the flows fixed to EAO's dispatch.
+        tol = 1e-6 * (1 + abs(r['value']) + abs(o['value']))
+        if r.get('eao_dispatch_in_reference') != 'optimal':
             ctx.violation('impl-violation', {'spec': sp, 'observed': {'EAO dispatch in the reference model': r.get('eao_dispatch_in_reference')},
                                              'expected': 'the dispatch EAO returns is feasible for the reference model'}, trigger={'what': 'dispatch infeasible in reference'})
+        elif abs(r['value_of_eao_dispatch'] - o['value']) > tol:
+            ctx.violation('impl-violation', {'spec': sp, 'observed': {'EAO value': o['value'], 'value of the same dispatch in the reference model': r['value_of_eao_dispatch']},
+                                             'expected': what}, trigger={'what': 'value of the dispatch differs from reference'})
+        elif r['value'] > o['value'] + tol:
+            ctx.violation('impl-violation', {'spec': sp, 'observed': {'EAO optimum': o['value'], 'reference optimum': r['value']}, 'expected': what},
+                          trigger={'what': 'optimum differs from reference'})
+        elif r['value'] < o['value'] - tol:
+            ctx.count('reference solver returned a suboptimal point (EAO better, its dispatch feasible and worth the same in the reference)')
     elif o.get('solve') == 'optimal' and r['status'] == 'infeasible':
         ctx.violation('impl-violation', {'spec': sp, 'observed': {'EAO optimum': o['value'], 'reference': 'infeasible'}, 'expected': what}, trigger={'what': 'reference infeasible'})
     elif o.get('solve') in ('not successful', 'infeasible') and r['status'] == 'optimal':
